@@ -282,23 +282,23 @@ PROPS = {
         'explanation': 'Mixed: fill_inplace has a complete functional contract relative to its two callees; agreement with wrap is relational and bounded.',
     },
     'C18': {
-        'units': ['U9', 'U8'], 'level': 'other', 'trusted': ['A3', 'A4', 'A12'],
+        'units': ['U9', 'U8'], 'level': 'proof', 'trusted': ['A3', 'A4', 'A12'],
         'proved_part': 'Verus, all inputs (U9): there is a margin length mlen such that, when some line has text, a string m of that length is the LONGEST string of '
                        'whitespace characters that is a prefix of every line containing a non-whitespace character (is_margin: common, and no longer common one exists); the '
                        'result is every line with text without its first mlen characters, every whitespace-only line empty, one output line per input line (each '
                        'followed by a newline), the final newline removed exactly when the input does not end in one. `str::lines` and `char::is_whitespace` are abstract (A4). '
-                       'The two "therefore" corollaries are theorems over that postcondition, for every text WITHOUT carriage returns (U9, with the one std fact that str::lines is '
-                       'split_terminator(\'\\n\') on such a text, checked on the real str::lines by the bounded contract A4.std_models): c18_dedent_idempotent — whatever the contract '
-                       'allows as dedent(s) and as dedent of that are equal (after the longest common margin is removed no common margin is left: second_margin_empty; the result '
-                       'is CR-free: dedent_no_cr); c18_dedent_of_indent — with indent(s, p) in the closed form U8 proves of it (indent_spec), for every whitespace prefix p '
-                       'without line break or CR, dedent(indent(s, p)) == dedent(s) (the margin of the indented lines is p followed by the margin of the lines: margin_of_mapped; '
-                       'whitespace-only lines stay whitespace-only; the final newline is kept). Both are probed for vacuity.',
-        'bounded_part': 'BEC: the same against an independent implementation on every string in scope; idempotence on texts WITH carriage returns (where it fails on one '
-                        'input class, known finding KF4, and is bounded-only elsewhere); both corollaries again by execution on the real functions.',
-        'explanation': 'Mixed, mostly proved: the first two sentences of the statement (the margin rule, the shape of the output) are the postcondition of dedent, discharged by Verus on '
-                       'the extracted function (three loops, std iterators through assumed std contracts). The two "therefore" corollaries are proved as theorems over that postcondition (and U8\'s for indent) for texts without carriage returns — '
-                       'all the second one claims; idempotence on texts that contain a carriage return is bounded-only, and there known finding KF4 lies: it fails when a line\'s own text ends in a carriage return ("a\\r\\r\\n"). '
-                       'That remainder keeps the level at other.',
+                       'The two "therefore" corollaries are theorems over that postcondition (U9, with the one std fact that str::lines is lines_c — the \'\\n\'-separated pieces, a terminated piece '
+                       'without one \'\\r\' before its \'\\n\', no final empty piece —, checked on the real str::lines by the bounded contract A4.std_models): c18_dedent_idempotent_cr — for every text '
+                       'outside known finding KF4\'s input class (kf4_free: no line that is terminated by a line break and has text ends in a carriage return; carriage returns allowed otherwise), whatever the contract '
+                       'allows as dedent(s) and as dedent of that are equal (after the longest common margin is removed no common margin is left: second_margin_empty); c18_dedent_of_indent — with indent(s, p) in the closed form U8 proves of it (indent_spec), for every whitespace prefix p '
+                       'without line break or CR and every s without CR (the statement\'s scope), dedent(indent(s, p)) == dedent(s) (the margin of the indented lines is p followed by the margin of the lines: margin_of_mapped; '
+                       'whitespace-only lines stay whitespace-only; the final newline is kept). All are probed for vacuity; without kf4_free the idempotence proof fails.',
+        'bounded_part': 'BEC: the same against an independent implementation on every string in scope; both corollaries again by execution on the real functions; on KF4\'s input class '
+                        '(the negation of kf4_free, computed on the input) idempotence fails and is reported as the pinned known finding — a failure outside it would be a violation.',
+        'explanation': 'Proof: the first two sentences of the statement (the margin rule, the shape of the output) are the postcondition of dedent, discharged by Verus on '
+                       'the extracted function (three loops, std iterators through assumed std contracts). The two "therefore" corollaries are proved as theorems over that postcondition (and U8\'s for indent): '
+                       'the second for texts without carriage returns — all it claims —, idempotence for every text outside the input class of known finding KF4, on which it demonstrably fails '
+                       '("a\\r\\r\\n": a line\'s own text ends in a carriage return). Proof in the sense of DESIGN §2.7 (a) cross-unit composition U8 -> U9 and (b) proved on the exact complement of an open known finding.',
     },
     'C19': {
         'units': ['U8'], 'level': 'proof', 'trusted': ['A3', 'A4', 'A12'],
